@@ -612,6 +612,22 @@ func (e *Env) call(ce *CE) (CVal, error) {
 			return CVal{}, err
 		}
 		return CVal{T: SCap(v.T), Ty: I}, nil
+	case "fresh":
+		// fresh(x): the slice's backing array / the pointed-to object was allocated by the function under verification
+		v, err := e.eval(args[0])
+		if err != nil {
+			return CVal{}, err
+		}
+		if v.T == nil {
+			return CVal{}, fmt.Errorf("fresh of %s", args[0])
+		}
+		if v.T.Sort == SSlice {
+			return CVal{T: Gt(SBase(v.T), fg.refLimit())}, nil
+		}
+		if v.T.Sort == SInt {
+			return CVal{T: Gt(v.T, fg.refLimit())}, nil
+		}
+		return CVal{}, fmt.Errorf("fresh of non-reference %s", args[0])
 	case "base":
 		// identity of a slice's backing array; base(a) != base(b) states that a and b do not share storage
 		v, err := e.eval(args[0])
@@ -735,7 +751,13 @@ func (e *Env) call(ce *CE) (CVal, error) {
 		if err != nil {
 			return CVal{}, err
 		}
-		return CVal{T: IVal(a.T), Ty: ty}, nil
+		switch ty.Underlying().(type) {
+		case *types.Pointer, *types.Map, *types.Chan, *types.Signature:
+			return CVal{T: IVal(a.T), Ty: ty}, nil
+		}
+		// value payloads are boxed: the interface carries a box id
+		srt := fg.g.ti.sortOf(ty)
+		return CVal{T: App("unbox_"+sanitize(srt), srt, IVal(a.T)), Ty: ty}, nil
 	case "sliceContains":
 		// the same deterministic predicate the code's slices.Contains call is modelled by
 		sv, err := e.eval(args[0])
